@@ -17,8 +17,14 @@ THEOREMS = [
     'Pfst.C10.reparse_ok_iff_wrapper_parses', 'Pfst.C10.movePos_eq_offsetPos', 'Pfst.C10.reparse_eq_full_partial',
     'Pfst.C10.reparse_eq_full_fixed_f6', 'Pfst.C10.reparse_eq_full_false', 'Pfst.C10.accepts_iff_valid_false',
     'Pfst.C10.clip_in_range', 'Pfst.C10.ret_end_is_end_of_new_text',
+    'Pfst.C10.raw_put_registry_restored', 'Pfst.C10.raw_put_outcome', 'Pfst.C10.raw_seq_registry_empty',
+    'Pfst.C10.raw_seq_no_registry_error', 'Pfst.C10.leaky_seq_false',
 ]
-RULE = ('sequences of k<=3 raw edits on one live tree per corpus program (snippets, generated programs with layout '
+RULE = ('histories of k<=6 raw edits on one live tree per corpus program, refused and accepted edits mixed, later edits placed '
+        'relative to the previous one (same statement, sibling statement, parent block header, other top-level statement), '
+        'continuing on the same tree after every refusal; after EVERY step the full oracle and emptiness of '
+        'fst_core._MODIFYING are checked; plus scripted histories and directed single edits on every run. Edits: '
+        'per corpus program (snippets, generated programs with layout '
         'mutations, stdlib chunks): put_src(action="reparse") on rectangles at node spans, node-to-node spans, token '
         'boundaries, whole lines, indentation, line joins and arbitrary character positions, with replacement texts that '
         'are identical, valid same/different shape, invalid, trivia, block headers, statements with/without re-indentation, '
@@ -30,7 +36,8 @@ RULE = ('sequences of k<=3 raw edits on one live tree per corpus program (snippe
 TRUSTED = [
     'modelled (Pfst/Raw.lean): clip_src_loc; _reparse_raw_stmtlike region rule (elif -> parent, header-only rule, root -> '
     'end of source), copy_lines of every wrapper family, first_lineno, first_line_col_delta, wrapper path; order of '
-    'effects of _reparse_raw_base; tree effect (offset outside with tail=head=True, graft, first-line delta, header-only '
+    'effects of _reparse_raw_base; the `with parent._modifying(False, True)` bracket of put_src(reparse) over the C12 registry '
+    'model (Pfst/RawSeq.lean) and histories of edits; tree effect (offset outside with tail=head=True, graft, first-line delta, header-only '
     'merge with end copy, _set_end_pos for elif); returned (end_ln, end_col)',
     'inputs of the model taken from pfst helper functions, not modelled: parent_stmtlike, find_contains_loc, is_elif, bloc, '
     '_loc_block_header_end, _get_block_indent, syntax_ordered_children; _put_src text effect modelled at spec level (one '
@@ -47,7 +54,8 @@ ASSUMPTIONS = [
     'the hypotheses ParseLocal / AncestorEndsStable of reparse_eq_full_partial are evaluated per case through the model '
     'tree (model tree == full parse); a failure of the implementation is a known class only when the implementation does '
     'exactly what the model predicts and the model prediction itself differs from the full parse',
-    'one call is one atomic step; histories are sequences on one live tree that stop at the first failing step',
+    'one call is one atomic step; a history continues on the same tree after every refusal and stops only when the tree no '
+    'longer equals a parse of its source (after that no expected tree exists)',
 ]
 LEVEL_TEXT = ('Lean 4 theorems about an executable model of clip_src_loc, _reparse_raw_stmtlike, _reparse_raw_base and the '
               'graft: wrapper lines keep every line number and character column of the region, byte delta formula, '
@@ -142,7 +150,8 @@ def _pipeline(ctx, recs, plan_only=False):
 
 def _witness(r):
     return {'src': r['src'], 'op': r['op'], 'rect': r['rect'], 'new': r['new'],
-            **({'node_path': r['node_path']} if 'node_path' in r else {})}
+            **({'node_path': r['node_path']} if 'node_path' in r else {}),
+            **({'history': r['history']} if r.get('history') else {})}
 
 
 def _account(ctx, triples, corr_name):
@@ -152,6 +161,9 @@ def _account(ctx, triples, corr_name):
         reached = m is not None
         ctx.count([r['src'], r['rect'], r['new'], r['op']], reached)
         ctx.tally('op', r['op'])
+        ctx.tally('history_step', r['step'])
+        if r['step'] and r['rk'].startswith('near:'):
+            ctx.tally('placed_relative_to_previous_edit', r['rk'].split(':')[1])
         ctx.tally('rect_kind', r['rk'])
         ctx.tally('text_kind', r['nk'])
         ctx.tally('outcome', 'raised' if r.get('raised') else 'returned')
@@ -289,11 +301,16 @@ def _replay_findings(ctx):
 
 def _run_witness(ctx, w):
     """replay one witness through the same pipeline; returns [(sig, what)]"""
-    rec = ops.recorder()
-    r = _exec_witness(w, rec)
-    if r is None:
-        return []
-    triples = _pipeline(ctx, [r])
+    if w.get('history') and w['op'] == 'put_src':
+        # the failing step with the earlier steps of its history, on one tree
+        recs = ops.run_sequence((w['history']['src'], 0, 0, ['put_src'], [tuple(e) for e in w['history']['edits']] + [(w['new'], *w['rect'])]))
+        triples = _pipeline(ctx, recs[-1:] if len(recs) == len(w['history']['edits']) + 1 else [])
+    else:
+        rec = ops.recorder()
+        r = _exec_witness(w, rec)
+        if r is None:
+            return []
+        triples = _pipeline(ctx, [r])
     out = []
     for r, m, e in triples:
         for sig, what in e['fail']:
@@ -329,6 +346,9 @@ def _exec_witness(w, rec):
     r['src_after'] = root.src
     r['dump_after'] = util.dump_pos(root.a)
     r['root_kind'] = root.a.__class__.__name__
+    import fst.fst_core as fc
+    r['registry'] = int(root in fc._MODIFYING)
+    fc._MODIFYING.clear()
     if exc is not None:
         r['raised'] = [type(exc).__name__, str(exc)[:120]]
         r['atomic'] = r['src_after'] == src0 and r['dump_after'] == dump0
@@ -377,6 +397,26 @@ DIRECTED = [
 ]
 
 
+# scripted histories on one tree mixing refused and accepted edits at different places (same statement, sibling, parent
+# block header, other top-level statement); every step is judged by the full oracle and the registry check
+_HSRC = 'x = 1\ndef f(a, b):\n    if a:\n        return a + b\n    return b\ny = [2, 3]\n'
+HISTORIES = [
+    (_HSRC, [('(', 0, 4, 0, 5), ('c', 3, 19, 3, 20)]),                       # refused, then valid in another statement
+    (_HSRC, [('in', 2, 7, 2, 8), ('4', 5, 8, 5, 9), ('z', 0, 0, 0, 1)]),      # refused header edit, then two valid top-level edits
+    (_HSRC, [('7', 0, 4, 0, 5), ('q', 4, 11, 4, 12)]),                        # accepted only
+    (_HSRC, [(')', 3, 15, 3, 16), ('c', 3, 15, 3, 16), ('bb', 4, 11, 4, 12), ('1 +', 2, 7, 2, 8), ('not a', 2, 7, 2, 8),
+             ('k', 1, 6, 1, 7)]),                                             # same stmt, sibling, parent header (refused, accepted), grandparent
+    (_HSRC, [('def', 5, 0, 5, 1), (':', 0, 0, 0, 0), ('yy', 5, 0, 5, 1), ('[', 5, 5, 5, 6), ('5', 5, 5, 5, 6)]),
+]
+
+
+def _histories(ctx):
+    recs = []
+    for src, script in HISTORIES:
+        recs.extend(ops.run_sequence((src, 0, 0, ['put_src'], script)))
+    return recs
+
+
 def _directed(ctx):
     rec = ops.recorder()
     recs = []
@@ -391,9 +431,10 @@ def sweep(ctx):
     q = ctx.quick
     _replay_findings(ctx)
     _account(ctx, _pipeline(ctx, _directed(ctx)), 'directed edits (every wrapper family / graft variant) vs Pfst.Raw')
+    _account(ctx, _pipeline(ctx, _histories(ctx)), 'scripted histories (refused and accepted edits at different places) vs Pfst.Raw')
     progs = _programs(ctx, 160 if q else 1200, 12 if q else 150)
     mix = ['put_src'] * 7 + ['raw-put'] * 2 + ['reparse']
-    recs = _gather(ctx, progs, 3, 10 if q else 14, mix)
+    recs = _gather(ctx, progs, 6, 6 if q else 9, mix)
     triples = _pipeline(ctx, recs)
     _account(ctx, triples, 'raw reparse (wrapper, path, deltas, return, accept, tree) vs Pfst.Raw')
     ctx.notes['edits'] = len(recs)
@@ -414,7 +455,7 @@ def search(ctx):
                 ctx.fail(sig, what, w)
     progs = list(dict.fromkeys(seeds)) + _programs(ctx, 1200, 100)
     mix = ['put_src'] * 7 + ['raw-put'] * 2 + ['reparse']
-    recs = _gather(ctx, progs, 3, 12, mix)
+    recs = _gather(ctx, progs, 6, 8, mix)
     n = 0
     for r, m, e in _pipeline(ctx, recs):
         n += 1
